@@ -102,8 +102,9 @@ def correspondence(tag, cases_obs, shard=150):
 
 
 class AGen:
-    def __init__(self, rng, max_actions=18, drain=True):
+    def __init__(self, rng, max_actions=18, drain=True, mix=False):
         self.r = rng
+        self.mix = mix
         self.max_actions = max_actions
         self.drain = drain
 
@@ -137,15 +138,34 @@ class AGen:
     def case(self, kind):
         r = self.r
         sp = self.spec(kind)
-        sink = r.choice(["ctl", "ctl", "ctl", "sync"])
+        sink = r.choice(["ctl", "ctl", "coro", "tornado", "sync"])
         acts = []
         nrc = 0
         n = r.randint(1, self.max_actions)
         nsrc = 2 if kind == "zip" else (3 if kind == "zip3" else 1)
         self.nextval = 0
         pe = r.choice([0.3, 0.5, 0.7])
+        pmix = r.choice([0.0, 0.0, 0.15, 0.3]) if self.mix else 0.0
         for _ in range(n):
             u = r.random()
+            if r.random() < pmix:
+                # sub-actions that follow each other without the loop going quiescent in between
+                subs = []
+                for _j in range(r.choice([2, 2, 3])):
+                    v = r.random()
+                    if v < 0.5:
+                        md = []
+                        if r.random() < 0.5:
+                            md.append([nrc, True])
+                            nrc += 1
+                        self.nextval += 1
+                        subs.append(["emit", r.randrange(nsrc), val_to_json(self.nextval), md])
+                    elif kind == "map_async" and v < 0.8:
+                        subs.append(["task", r.choice([0, 0, 1])])
+                    else:
+                        subs.append(["ack"])
+                acts.append(["mix", r.choice([-1, 0, 0, 1, 1, 2, 3]), subs])
+                continue
             if u < pe:
                 md = []
                 if r.random() < 0.7:
@@ -161,7 +181,7 @@ class AGen:
             else:
                 acts.append(["adv", r.choice([1, 1, 2, 3, 4, 4, 5, 8])])
         if self.drain:
-            k = sum(1 for a in acts if a[0] == "emit") + 3
+            k = sum(1 for a in acts if a[0] == "emit") + sum(len(a[2]) for a in acts if a[0] == "mix") + 3
             for _ in range(k):
                 acts.append(["ack"])
                 if kind == "map_async":
